@@ -18,7 +18,7 @@ def defaultOutputFile (fileName : S) : S :=
 
 /-- `getOutputDir` (despite its name: the output FILE path) -/
 def outputPath (declFile outputFile : S) : S :=
-  if isAbs outputFile then outputFile else join2 (dir declFile) outputFile
+  if isAbs outputFile then clean outputFile else join2 (dir declFile) outputFile
 
 /-- `resolvePackage` -/
 def resolvePackage (declFile sourcePackage targetFile : S) : Option S :=
